@@ -11,6 +11,7 @@
 From VF Require Import Base Iter Enc Lru LruStep Slru TwoQ Arc CacheStep Tiny WTiny TinyStep
   BaseFacts LruFacts Counts PrimFacts Tactics SlruFacts TwoQFacts ArcFacts TinyFacts WTinyFacts
   C07Proofs C08Proofs C09Proofs C10Proofs.
+From VF Require Import Univ.
 
 Definition put_truth (R R' : list entry) (k : key) (v : val) (r : put_result) : Prop :=
   match r with
@@ -156,4 +157,615 @@ Proof.
            { intros H ->. apply (Hdis ek); [rewrite keys_app; apply in_or_app; right; now left|].
              now apply in_keys_of_in in H. }
            intuition congruence.
+Qed.
+
+(** ** deriving [put_truth] from key counts + "no value is invented" *)
+Lemma same_key_same_entry (R : list entry) e e' :
+  NoDup (keys R) -> In e R -> In e' R -> fst e = fst e' -> e = e'.
+Proof.
+  intros Hnd H1 H2 E. destruct e as [a b], e' as [a' b']. cbn in E. subst a'.
+  apply (in_find_nodup _ _ _ Hnd) in H1. apply (in_find_nodup _ _ _ Hnd) in H2. congruence.
+Qed.
+
+Lemma in_of_cnt R x : (0 < cntl R x)%nat -> exists y, In (x, y) R.
+Proof. intros H. destruct (cntl_pos_find _ _ H) as [y Hy]. exists y. now apply find_some_in. Qed.
+
+Lemma cnt_of_in (e : entry) R : In e R -> (0 < cntl R (fst e))%nat.
+Proof. intros H. apply cntl_in. now apply in_keys_of_in. Qed.
+
+Section Truth.
+  Variables (R R' : list entry) (k : key) (v : val).
+  Hypothesis HndR : NoDup (keys R).
+  Hypothesis Hincl : forall e, In e R' -> e = (k, v) \/ In e R.
+  Hypothesis Hnew : In (k, v) R'.
+
+  (** an entry of [R] whose key is still counted in [R'] (and is not [k]) is in [R'] *)
+  Lemma survives e : In e R -> fst e <> k -> (0 < cntl R' (fst e))%nat -> In e R'.
+  Proof.
+    intros Hin Hne Hc. destruct (in_of_cnt _ _ Hc) as [y Hy].
+    destruct (Hincl _ Hy) as [E|Hy']; [inversion E; congruence|].
+    assert (E : (fst e, y) = e) by (apply (same_key_same_entry R); auto).
+    now rewrite <- E.
+  Qed.
+
+  Lemma truth_put :
+    cntl R k = 0%nat -> (forall x, cntl R' x = (cntl R x + ind (Z.eqb k x))%nat) ->
+    put_truth R R' k v PPut.
+  Proof.
+    intros Hk Hc. split; [now apply cntl_notin|]. intros e. split; [apply Hincl|].
+    intros [->|Hin]; [exact Hnew|]. apply survives; auto.
+    - intros E. apply cnt_of_in in Hin. rewrite E in Hin. lia.
+    - rewrite Hc. apply cnt_of_in in Hin. lia.
+  Qed.
+
+  Lemma truth_update old :
+    In (k, old) R -> (forall x, cntl R' x = cntl R x) -> put_truth R R' k v (PUpdate old).
+  Proof.
+    intros Hold Hc. split; [exact Hold|]. intros e. split.
+    - intros Hin. destruct (Hincl _ Hin) as [->|Hin']; [now left|].
+      destruct (Z.eq_dec (fst e) k) as [E|Hne]; [|right; auto].
+      (* an entry of R' with key k that is in R: it is (k, old); R' has key k once, so it is (k, v) *)
+      left. assert (HndR' : forall x, (cntl R' x <= 1)%nat).
+      { intros x. rewrite Hc. now apply cntl_nodup. }
+      apply cntl_nodup in HndR'. apply (same_key_same_entry R'); auto.
+    - intros [->|[Hin Hne]]; [exact Hnew|]. apply survives; auto. rewrite Hc. now apply cnt_of_in.
+  Qed.
+
+  Lemma truth_evicted ek ev :
+    cntl R k = 0%nat -> In (ek, ev) R ->
+    (forall x, (cntl R' x + ind (Z.eqb ek x) = cntl R x + ind (Z.eqb k x))%nat) ->
+    put_truth R R' k v (PEvicted ek ev).
+  Proof.
+    intros Hk Hev Hc. pose proof (proj1 (cntl_nodup R) HndR) as H1.
+    assert (Hne : ek <> k).
+    { intros ->. apply cnt_of_in in Hev. cbn in Hev. lia. }
+    split; [now apply cntl_notin|]. split; [exact Hev|]. split; [exact Hne|]. intros e. split.
+    - intros Hin. destruct (Hincl _ Hin) as [->|Hin']; [now left|]. right. split; [exact Hin'|].
+      intros ->. apply cnt_of_in in Hin. cbn in Hin. pose proof (Hc ek) as Hx. pose proof (H1 ek).
+      rewrite Z.eqb_refl in Hx. cbn [ind] in Hx. rewrite (ind_eqb_neq k ek) in Hx by congruence. lia.
+    - intros [->|[Hin Hn]]; [exact Hnew|].
+      assert (Hkx : fst e <> k) by (intros E; apply cnt_of_in in Hin; rewrite E in Hin; lia).
+      apply survives; auto.
+      assert (Hex : ek <> fst e).
+      { intros E. apply Hn. apply (same_key_same_entry R); auto. }
+      pose proof (Hc (fst e)) as Hx. apply cnt_of_in in Hin.
+      rewrite (ind_eqb_neq ek (fst e)) in Hx by exact Hex.
+      rewrite (ind_eqb_neq k (fst e)) in Hx by congruence. lia.
+  Qed.
+
+  Lemma truth_evicted_update ek ev old :
+    In (k, old) R -> In (ek, ev) R -> ek <> k ->
+    (forall x, (cntl R' x + ind (Z.eqb ek x) = cntl R x)%nat) ->
+    put_truth R R' k v (PEvictedAndUpdate ek ev old).
+  Proof.
+    intros Hold Hev Hne Hc. pose proof (proj1 (cntl_nodup R) HndR) as H1.
+    split; [exact Hold|]. split; [exact Hev|]. split; [exact Hne|]. intros e. split.
+    - intros Hin. destruct (Hincl _ Hin) as [->|Hin']; [now left|].
+      destruct (Z.eq_dec (fst e) k) as [E|Hnk].
+      + left. assert (HndR' : NoDup (keys R')).
+        { apply cntl_nodup. intros x. pose proof (Hc x). pose proof (H1 x). lia. }
+        apply (same_key_same_entry R'); auto.
+      + right. split; [exact Hin'|]. split; [exact Hnk|].
+        intros ->. apply cnt_of_in in Hin. cbn in Hin. pose proof (Hc ek) as Hx. pose proof (H1 ek).
+        rewrite Z.eqb_refl in Hx. cbn [ind] in Hx. lia.
+    - intros [->|(Hin & Hnk & Hn)]; [exact Hnew|]. apply survives; auto.
+      assert (Hex : ek <> fst e).
+      { intros E. apply Hn. apply (same_key_same_entry R); auto. }
+      pose proof (Hc (fst e)) as Hx. apply cnt_of_in in Hin.
+      rewrite (ind_eqb_neq ek (fst e)) in Hx by exact Hex. lia.
+  Qed.
+End Truth.
+
+(** ** TwoQueueCache *)
+Definition retained_q (s : twoq) : list entry := items (recent s) ++ items (frequent s) ++ items (ghost s).
+
+Lemma push_bounded_cases c g x :
+  (1 <= c)%nat ->
+  ((length g < c)%nat /\ push_bounded c g x = (x :: g, None)) \/
+  ((c <= length g)%nat /\ exists rest d, g = rest ++ [d] /\ push_bounded c g x = (x :: rest, Some d)).
+Proof.
+  intros Hc. unfold push_bounded. destruct (Nat.ltb_spec (length g) c); [left; auto|right].
+  split; [assumption|]. unfold drop_last, last_e.
+  destruct (split_last g) as [[rest d]|] eqn:E.
+  - apply split_last_app in E. eauto.
+  - apply split_last_none in E. subst. cbn in *. lia.
+Qed.
+
+Lemma twoq_nodup s : twoq_inv s -> NoDup (keys (retained_q s)).
+Proof.
+  intros (_ & _ & _ & _ & _ & _ & Hd). apply cntl_nodup. intros x. unfold retained_q.
+  rewrite !cntl_app. pose proof (Hd x). lia.
+Qed.
+
+Lemma in_drop_last e l : In e (drop_last l) -> In e l.
+Proof.
+  unfold drop_last. destruct (split_last l) as [[r x]|] eqn:E; [|intros []].
+  apply split_last_app in E. subst. intros H. apply in_or_app. now left.
+Qed.
+
+(** automation for the two side conditions of the [truth_*] lemmas *)
+Ltac incl_tac :=
+  let e := fresh "e" in let H := fresh "H" in
+  intros e H;
+  cbn [recent frequent ghost with_rfg items with_items t1 t2 b1 b2 prob prot wt_lru wt_slru wt_with] in H |- *;
+  repeat (rewrite in_app_iff in H || cbn [In] in H);
+  repeat (rewrite in_app_iff || cbn [In]);
+  repeat match goal with
+         | H : _ \/ _ |- _ => destruct H as [H|H]
+         | H : In _ (_ :: _) |- _ => cbn [In] in H
+         | H : In _ (_ ++ _) |- _ => apply in_app_or in H
+         | H : In _ [] |- _ => destruct H
+         | H : In _ (remove_key _ _) |- _ => apply in_remove_key in H
+         | H : In _ (drop_last _) |- _ => apply in_drop_last in H
+         | H : False |- _ => destruct H
+         end; subst; auto 10.
+
+Ltac cnt_tac Hd :=
+  let x := fresh "x" in
+  intros x; pose proof (Hd x); unfold retained_q in *; cbn [recent frequent ghost with_rfg items with_items] in *;
+  autorewrite with cnt in *; cbn [length] in *; eqb_cases; try lia.
+
+Theorem c12_twoq s k v :
+  twoq_inv s ->
+  exists s' r, qput s k v = Ok (s', r) /\ put_truth (retained_q s) (retained_q s') k v r /\
+               qpeek s' k = Some v.
+Proof.
+  intros Hinv. pose proof (twoq_nodup s Hinv) as HndR.
+  pose proof Hinv as (Hs & Hcr & Hcf & Hcg & Hrf & Hg & Hd).
+  unfold qpeek, peek. unfold retained_q in *.
+  destruct (find k (items (frequent s))) as [old|] eqn:Ef.
+  - (* frequent hit *)
+    rewrite (put_frequent_hit s k v old Ef). do 2 eexists. split; [reflexivity|].
+    cbn [recent frequent ghost with_rfg items with_items find]. rewrite Z.eqb_refl. split; [|reflexivity].
+    pose proof (cntl_find_some _ _ _ Ef) as Hpos. apply find_some_in in Ef as Hin.
+    apply truth_update; auto.
+    + unfold retained_q. incl_tac.
+    + unfold retained_q. cbn [recent frequent ghost with_rfg items with_items]. in_norm. auto.
+    + unfold retained_q. in_norm. auto.
+    + cnt_tac Hd.
+  - destruct (find k (items (recent s))) as [old|] eqn:Er.
+    + (* recent hit *)
+      rewrite (put_recent_hit s k v old Hinv Ef Er). do 2 eexists. split; [reflexivity|].
+      cbn [recent frequent ghost with_rfg items with_items find]. rewrite Z.eqb_refl. split; [|reflexivity].
+      pose proof (cntl_find_some _ _ _ Er) as Hpos. apply find_some_in in Er as Hin.
+      apply truth_update; auto.
+      * unfold retained_q. incl_tac.
+      * unfold retained_q. cbn [recent frequent ghost with_rfg items with_items]. in_norm. auto.
+      * unfold retained_q. in_norm. auto.
+      * cnt_tac Hd.
+    + destruct (find k (items (ghost s))) as [old|] eqn:Eg.
+      * (* ghost hit *)
+        pose proof (cntl_find_some _ _ _ Eg) as Hpos. apply find_some_in in Eg as Hin.
+        destruct (Nat.leb_spec (qsize s) (llen (recent s) + llen (frequent s))) as [Hfull|Hroom].
+        -- destruct (put_ghost_hit_full s k v old Hinv Ef Er Eg Hfull)
+             as (fromr & victim & s' & r & Hv & E & E1 & E2 & E3 & Hr).
+           exists s', r. split; [exact E|]. rewrite E2. cbn [find]. rewrite Z.eqb_refl. split; [|reflexivity].
+           pose proof (q_victim_last _ _ _ _ _ Hv) as Hlast.
+           pose proof (q_victim_key _ _ _ _ _ k Hv Er Ef) as Hvk.
+           rewrite ?E1, ?E2, ?E3.
+           destruct victim as [vk vv]. cbn [fst] in Hvk.
+           destruct (push_bounded_cases (cap (ghost s)) (items (ghost s)) (vk, vv) Hcg)
+             as [[Hlt Ep]|[Hge (grest & [dk dv] & Hgit & Ep)]]; rewrite Ep in *; cbn [fst snd] in *; subst r.
+           ++ (* ghost list had room *)
+              destruct fromr;
+                [set (rr := drop_last (items (recent s))) in *|set (rr := drop_last (items (frequent s))) in *];
+                clearbody rr; rewrite Hlast in *.
+              ** apply truth_update; auto.
+                 --- incl_tac.
+                 --- in_norm. auto.
+                 --- in_norm. auto 6.
+                 --- cnt_tac Hd.
+              ** apply truth_update; auto.
+                 --- incl_tac.
+                 --- in_norm. auto.
+                 --- in_norm. auto 6.
+                 --- cnt_tac Hd.
+           ++ (* ghost list full: it dropped its own LRU (dk, dv) *)
+              rewrite Hgit in *.
+              destruct fromr;
+                [set (rr := drop_last (items (recent s))) in *|set (rr := drop_last (items (frequent s))) in *];
+                clearbody rr; rewrite Hlast in *;
+                (destruct (Z.eqb_spec dk k) as [->|Hdk];
+                 [ (* the dropped ghost is the key itself *)
+                   apply truth_update; auto; [incl_tac|in_norm; auto|in_norm; auto 8|cnt_tac Hd]
+                 | apply truth_evicted_update; auto;
+                   [incl_tac|in_norm; auto|in_norm; auto 8|in_norm; auto 8|cnt_tac Hd] ]).
+        -- rewrite (put_ghost_hit_room s k v old Hinv Ef Er Eg Hroom). do 2 eexists. split; [reflexivity|].
+           cbn [recent frequent ghost with_rfg items with_items find]. rewrite Z.eqb_refl. split; [|reflexivity].
+           apply truth_update; auto.
+           ++ unfold retained_q. incl_tac.
+           ++ unfold retained_q. cbn [recent frequent ghost with_rfg items with_items]. in_norm. auto.
+           ++ unfold retained_q. in_norm. auto.
+           ++ cnt_tac Hd.
+      * (* brand-new key *)
+        assert (Hk0 : cntl (items (recent s) ++ items (frequent s) ++ items (ghost s)) k = 0%nat).
+        { rewrite !cntl_app.
+          rewrite (cntl_find_none _ _ Ef), (cntl_find_none _ _ Er), (cntl_find_none _ _ Eg). reflexivity. }
+        destruct (Nat.ltb_spec (llen (frequent s) + llen (recent s)) (qsize s)) as [Hroom|Hfull].
+        -- rewrite (put_new_room s k v Hinv Ef Er Eg Hroom). do 2 eexists. split; [reflexivity|].
+           cbn [recent frequent ghost with_rfg items with_items find]. rewrite Z.eqb_refl, Ef.
+           split; [|reflexivity].
+           apply truth_put; auto.
+           ++ unfold retained_q. incl_tac.
+           ++ unfold retained_q. cbn [recent frequent ghost with_rfg items with_items]. in_norm. auto.
+           ++ cnt_tac Hd.
+        -- destruct (put_new_full s k v Hinv Ef Er Eg Hfull)
+             as (fromr & victim & s' & r & Hv & E & E1 & E2 & E3 & Hr).
+           exists s', r. split; [exact E|].
+           pose proof (q_victim_last _ _ _ _ _ Hv) as Hlast.
+           pose proof (q_victim_key _ _ _ _ _ k Hv Er Ef) as Hvk.
+           assert (Hpk : match find k (items (frequent s')) with
+                         | Some v0 => Some v0 | None => find k (items (recent s')) end = Some v).
+           { rewrite E2, E1. cbn [find]. rewrite Z.eqb_refl.
+             destruct fromr; [now rewrite Ef|].
+             destruct (find k (drop_last (items (frequent s)))) eqn:Edl; [|reflexivity].
+             apply find_some_in, in_drop_last in Edl. apply in_keys_of_in in Edl. cbn in Edl.
+             apply find_none_notin in Ef. contradiction. }
+           split; [|exact Hpk].
+           rewrite ?E1, ?E2, ?E3.
+           destruct victim as [vk vv]. cbn [fst] in Hvk.
+           destruct (push_bounded_cases (cap (ghost s)) (items (ghost s)) (vk, vv) Hcg)
+             as [[Hlt Ep]|[Hge (grest & [dk dv] & Hgit & Ep)]]; rewrite Ep in *; cbn [fst snd] in *; subst r.
+           ++ destruct fromr;
+                [set (rr := drop_last (items (recent s))) in *|set (rr := drop_last (items (frequent s))) in *];
+                clearbody rr; rewrite Hlast in *;
+                (apply truth_put; auto; [incl_tac|in_norm; auto|cnt_tac Hd]).
+           ++ rewrite Hgit in *.
+              destruct fromr;
+                [set (rr := drop_last (items (recent s))) in *|set (rr := drop_last (items (frequent s))) in *];
+                clearbody rr; rewrite Hlast in *;
+                (apply truth_evicted; auto; [incl_tac|in_norm; auto|in_norm; auto 8|cnt_tac Hd]).
+Qed.
+
+(** ** framing: entries of an untouched partition [W] with keys disjoint from everything else *)
+Lemma put_truth_frame W R R' k v r :
+  (forall e, In e W -> fst e <> k /\ ~ In (fst e) (keys R)) ->
+  put_truth R R' k v r -> put_truth (W ++ R) (W ++ R') k v r.
+Proof.
+  intros HW. destruct r as [|old|ek ev|ek ev old]; cbn [put_truth].
+  - intros [Hk H]. split.
+    + rewrite keys_app, in_app_iff. intros [Hin|Hin]; [|contradiction].
+      unfold keys in Hin. apply in_map_iff in Hin. destruct Hin as (e & E & Hin). apply HW in Hin. tauto.
+    + intros e. rewrite !in_app_iff, H. tauto.
+  - intros [Hold H]. split; [apply in_or_app; now right|].
+    intros e. rewrite !in_app_iff, H. specialize (HW e). tauto.
+  - intros (Hk & Hev & Hne & H). split; [|split; [apply in_or_app; now right|split; [exact Hne|]]].
+    + rewrite keys_app, in_app_iff. intros [Hin|Hin]; [|contradiction].
+      unfold keys in Hin. apply in_map_iff in Hin. destruct Hin as (e & E & Hin). apply HW in Hin. tauto.
+    + intros e. rewrite !in_app_iff, H. specialize (HW e).
+      assert (In e W -> e <> (ek, ev)).
+      { intros Hin ->. apply HW in Hin. destruct Hin as [_ Hn]. apply Hn. now apply in_keys_of_in in Hev. }
+      tauto.
+  - intros (Hold & Hev & Hne & H). split; [apply in_or_app; now right|].
+    split; [apply in_or_app; now right|split; [exact Hne|]].
+    intros e. rewrite !in_app_iff, H. specialize (HW e).
+    assert (In e W -> e <> (ek, ev)).
+    { intros Hin ->. apply HW in Hin. destruct Hin as [_ Hn]. apply Hn. now apply in_keys_of_in in Hev. }
+    tauto.
+Qed.
+
+(** ** AdaptiveCache: put reports Put / Update truthfully and invents nothing; ARC discards ghost
+    entries silently (which ones: theorem C09_replace and C09_new_key) *)
+Definition retained_a (s : arc) : list entry := items (t1 s) ++ items (b1 s) ++ items (t2 s) ++ items (b2 s).
+
+Lemma in_push_bounded e c g x : In e (fst (push_bounded c g x)) -> e = x \/ In e g.
+Proof.
+  unfold push_bounded. destruct (Nat.ltb (length g) c); cbn [fst In].
+  - intros [<-|H]; auto.
+  - intros [<-|H]; auto. right. now apply in_drop_last.
+Qed.
+
+Lemma made_room_incl s0 full b s1 :
+  arc_inv s0 -> (full = true -> (1 <= llen (t1 s0) + llen (t2 s0))%nat) -> made_room s0 full b s1 ->
+  (forall e, In e (retained_a s1) -> In e (retained_a s0)) /\
+  (forall e, In e (items (t1 s1)) -> In e (items (t1 s0))) /\
+  (forall e, In e (items (t2 s1)) -> In e (items (t2 s0))).
+Proof.
+  intros Hinv Hne Hm. unfold made_room in Hm. destruct full; [|inversion Hm; subst; auto].
+  destruct (replace_exact s0 b Hinv (Hne eq_refl))
+    as (fromr & victim & s' & Hv & E & _ & _ & _ & _ & _ & _ & E1 & E2 & E3 & E4).
+  rewrite E in Hm. inversion Hm; subst s'. clear Hm.
+  pose proof (q_victim_last _ _ _ _ _ Hv) as Hlast.
+  assert (Hvin : In victim (if fromr then items (t1 s0) else items (t2 s0))).
+  { destruct fromr; rewrite Hlast; apply in_or_app; right; now left. }
+  unfold retained_a. rewrite E1, E2, E3, E4. repeat split; intros e; destruct fromr; in_norm; intros H;
+    repeat match goal with
+           | H : _ \/ _ |- _ => destruct H as [H|H]
+           | H : In _ (drop_last _) |- _ => apply in_drop_last in H
+           | H : In _ (fst (push_bounded _ _ _)) |- _ => apply in_push_bounded in H
+           end; subst; auto 8.
+Qed.
+
+Theorem c12_arc s k v :
+  arc_inv s ->
+  exists s' r, aput s k v = Ok (s', r) /\
+    (match r with
+     | PPut => ~ In k (keys (retained_a s))
+     | PUpdate old => In (k, old) (retained_a s)
+     | _ => False
+     end) /\
+    (forall e, In e (retained_a s') -> e = (k, v) \/ (In e (retained_a s) /\ fst e <> k)) /\
+    apeek s' k = Some v.
+Proof.
+  intros Hinv. pose proof Hinv as (Hs & Hc1 & Hc2 & Hc3 & Hc4 & Hp & Hr & Hg1 & Hg2 & Hd).
+  assert (HndR : NoDup (keys (retained_a s))).
+  { apply cntl_nodup. intros x. unfold retained_a. rewrite !cntl_app. pose proof (Hd x). lia. }
+  assert (Hstrong : forall R', (forall e, In e R' -> e = (k, v) \/ In e (retained_a s)) ->
+                               (forall x, (cntl R' x <= 1)%nat) -> In (k, v) R' ->
+                               forall e, In e R' -> e = (k, v) \/ (In e (retained_a s) /\ fst e <> k)).
+  { intros R' Hincl Hnd' Hnew e Hin. destruct (Hincl e Hin) as [->|Hin']; [now left|].
+    destruct (Z.eq_dec (fst e) k) as [E|Hne]; [left|right; auto].
+    apply cntl_nodup in Hnd'. apply (same_key_same_entry R'); auto. }
+  destruct (aput_ok s k v Hinv) as (sx & rx & Ex & Hix & _).
+  assert (Hnd' : forall x, (cntl (retained_a sx) x <= 1)%nat).
+  { destruct Hix as (_ & _ & _ & _ & _ & _ & _ & _ & _ & Hd'). intros x. unfold retained_a.
+    rewrite !cntl_app. pose proof (Hd' x). lia. }
+  unfold apeek, peek.
+  destruct (find k (items (t1 s))) as [old|] eqn:E1.
+  - rewrite (aput_recent_hit s k v old Hinv E1) in *. inversion Ex; subst sx rx.
+    do 2 eexists. split; [reflexivity|]. apply find_some_in in E1 as Hin.
+    split; [unfold retained_a; in_norm; auto|].
+    split.
+    + apply Hstrong; auto.
+      * unfold retained_a. cbn [t1 t2 b1 b2 items with_items]. incl_tac.
+      * unfold retained_a. cbn [t1 t2 b1 b2 items with_items]. in_norm. auto 6.
+    + cbn [t1 t2 items with_items find]. rewrite Z.eqb_refl.
+      destruct (find k (remove_key k (items (t1 s)))) eqn:Er; [|reflexivity].
+      assert (Hn1 : NoDup (keys (items (t1 s)))).
+      { apply cntl_nodup. intros x. pose proof (Hd x). lia. }
+      rewrite find_remove_key_same in Er by exact Hn1. discriminate.
+  - destruct (find k (items (t2 s))) as [old|] eqn:E2.
+    + rewrite (aput_frequent_hit s k v old E1 E2) in *. inversion Ex; subst sx rx.
+      do 2 eexists. split; [reflexivity|]. apply find_some_in in E2 as Hin.
+      split; [unfold retained_a; in_norm; auto 6|].
+      split.
+      * apply Hstrong; auto.
+        -- unfold retained_a. cbn [t1 t2 b1 b2 items with_items]. incl_tac.
+        -- unfold retained_a. cbn [t1 t2 b1 b2 items with_items]. in_norm. auto 6.
+      * cbn [t1 t2 items with_items find]. now rewrite E1, Z.eqb_refl.
+    + destruct (find k (items (b1 s))) as [old|] eqn:E3.
+      * destruct (aput_recent_ghost_hit s k v old Hinv E1 E2 E3) as (s2 & Hm & E).
+        rewrite E in Ex. inversion Ex; subst sx rx. clear Ex.
+        do 2 eexists. split; [exact E|]. apply find_some_in in E3 as Hin.
+        split; [unfold retained_a; in_norm; auto 6|].
+        set (s1 := mkArc (asize s) _ (t1 s) (with_items (b1 s) (remove_key k (items (b1 s)))) (t2 s) (b2 s)) in *.
+        assert (Hi1 : arc_inv s1).
+        { pose proof (cntl_find_some _ _ _ E3) as Hpos. pose proof (length_remove_key_in _ _ Hpos) as Hlen.
+          subst s1. repeat split; unfold llen in *; proj; try lia.
+          intros x. pose proof (Hd x). autorewrite with cnt. eqb_cases; lia. }
+        destruct (made_room_incl s1 (Nat.leb (asize s) (llen (t1 s) + llen (t2 s))) false s2 Hi1) as (Hinc & Hinc1 & Hinc2); [|exact Hm|].
+        { intros Ef. apply Nat.leb_le in Ef. subst s1. proj. lia. }
+        split.
+        -- apply Hstrong; auto.
+           ++ intros e He. unfold retained_a in He. cbn [t1 t2 b1 b2 items with_items] in He.
+              assert (He' : e = (k, v) \/ In e (retained_a s2)).
+              { unfold retained_a. in_norm. intuition auto. }
+              destruct He' as [->|He']; [now left|right]. apply Hinc in He'.
+              unfold retained_a in *. subst s1. cbn [t1 t2 b1 b2 items with_items] in He'. in_norm.
+              repeat match goal with
+                     | H : _ \/ _ |- _ => destruct H as [H|H]
+                     | H : In _ (remove_key _ _) |- _ => apply in_remove_key in H
+                     end; auto 8.
+           ++ unfold retained_a. cbn [t1 t2 b1 b2 items with_items]. in_norm. auto 6.
+        -- cbn [t1 t2 items with_items find]. rewrite Z.eqb_refl.
+           destruct (find k (items (t1 s2))) eqn:Ek; [|reflexivity].
+           apply find_some_in, Hinc1 in Ek. subst s1. cbn [t1] in Ek.
+           apply in_keys_of_in in Ek. apply find_none_notin in E1. contradiction.
+      * destruct (find k (items (b2 s))) as [old|] eqn:E4.
+        -- destruct (aput_frequent_ghost_hit s k v old Hinv E1 E2 E3 E4) as (s2 & Hm & E).
+           rewrite E in Ex. inversion Ex; subst sx rx. clear Ex.
+           do 2 eexists. split; [exact E|]. apply find_some_in in E4 as Hin.
+           split; [unfold retained_a; in_norm; auto 8|].
+           set (s1 := mkArc (asize s) _ (t1 s) (b1 s) (t2 s) (with_items (b2 s) (remove_key k (items (b2 s))))) in *.
+           assert (Hi1 : arc_inv s1).
+           { pose proof (cntl_find_some _ _ _ E4) as Hpos. pose proof (length_remove_key_in _ _ Hpos) as Hlen.
+             subst s1. repeat split; unfold llen in *; proj; try lia.
+             intros x. pose proof (Hd x). autorewrite with cnt. eqb_cases; lia. }
+           destruct (made_room_incl s1 (Nat.leb (asize s) (llen (t1 s) + llen (t2 s))) true s2 Hi1) as (Hinc & Hinc1 & Hinc2); [|exact Hm|].
+           { intros Ef. apply Nat.leb_le in Ef. subst s1. proj. lia. }
+           split.
+           ++ apply Hstrong; auto.
+              ** intros e He. unfold retained_a in He. cbn [t1 t2 b1 b2 items with_items] in He.
+                 assert (He' : e = (k, v) \/ In e (retained_a s2)).
+                 { unfold retained_a. in_norm. intuition auto. }
+                 destruct He' as [->|He']; [now left|right]. apply Hinc in He'.
+                 unfold retained_a in *. subst s1. cbn [t1 t2 b1 b2 items with_items] in He'. in_norm.
+                 repeat match goal with
+                        | H : _ \/ _ |- _ => destruct H as [H|H]
+                        | H : In _ (remove_key _ _) |- _ => apply in_remove_key in H
+                        end; auto 8.
+              ** unfold retained_a. cbn [t1 t2 b1 b2 items with_items]. in_norm. auto 6.
+           ++ cbn [t1 t2 items with_items find]. rewrite Z.eqb_refl.
+              destruct (find k (items (t1 s2))) eqn:Ek; [|reflexivity].
+              apply find_some_in, Hinc1 in Ek. subst s1. cbn [t1] in Ek.
+              apply in_keys_of_in in Ek. apply find_none_notin in E1. contradiction.
+        -- destruct (aput_new_key s k v Hinv E1 E2 E3 E4) as (s1 & Hm & E).
+           rewrite E in Ex. inversion Ex; subst sx rx. clear Ex.
+           do 2 eexists. split; [exact E|].
+           split.
+           { unfold retained_a. rewrite !keys_app, !in_app_iff.
+             apply find_none_notin in E1, E2, E3, E4. tauto. }
+           destruct (made_room_incl s (Nat.leb (asize s) (llen (t1 s) + llen (t2 s))) false s1 Hinv) as (Hinc & Hinc1 & Hinc2); [|exact Hm|].
+           { intros Ef. apply Nat.leb_le in Ef. lia. }
+           split.
+           ++ apply Hstrong; auto.
+              ** intros e He. unfold retained_a in He. cbn [t1 t2 b1 b2 items with_items] in He.
+                 assert (He' : e = (k, v) \/ In e (retained_a s1)).
+                 { unfold retained_a. in_norm.
+                   destruct (Nat.ltb (asize s - ap s) (llen (b1 s))), (Nat.ltb (ap s) (llen (b2 s)));
+                     cbn [items with_items] in He;
+                     repeat match goal with
+                            | H : _ \/ _ |- _ => destruct H as [H|H]
+                            | H : In _ (drop_last _) |- _ => apply in_drop_last in H
+                            end; auto 8. }
+                 destruct He' as [->|He']; [now left|right]. now apply Hinc.
+              ** unfold retained_a. cbn [t1 t2 b1 b2 items with_items]. in_norm. auto.
+           ++ cbn [t1 t2 items with_items find]. now rewrite Z.eqb_refl.
+Qed.
+
+(** ** WTinyLFUCache *)
+Definition retained_w (s : wtiny) : list entry :=
+  items (wt_lru s) ++ items (prob (wt_slru s)) ++ items (prot (wt_slru s)).
+
+Ltac wcnt_tac Hd :=
+  let x := fresh "x" in
+  intros x; pose proof (Hd x); unfold scnt in *;
+  cbn [wt_lru wt_slru wt_tiny wt_with prob prot items with_items] in *;
+  autorewrite with cnt in *; cbn [length] in *; eqb_cases; try lia.
+
+Theorem c12_wtiny s k v :
+  wt_inv s ->
+  exists s' r, wput s k v = Ok (s', r) /\ put_truth (retained_w s) (retained_w s') k v r /\
+               wpeek s' k = Some v.
+Proof.
+  intros Hinv. pose proof Hinv as (Ht & Hc & Hl & Hm & Hd).
+  pose proof Hm as (Hc1 & Hc2 & Hl1 & Hl2 & Hdm).
+  assert (HndR : NoDup (keys (retained_w s))).
+  { apply cntl_nodup. intros x. unfold retained_w. rewrite !cntl_app. pose proof (Hd x). unfold scnt in *. lia. }
+  unfold retained_w in *. unfold wpeek, speek, peek.
+  destruct (find k (items (wt_lru s))) as [old|] eqn:Ew.
+  - (* window hit *)
+    destruct (window_hit_moves_to_protected s k v old Hinv Ew) as (s' & E & _ & Ep & Hcase).
+    exists s', (PUpdate old). split; [exact E|].
+    pose proof (cntl_find_some _ _ _ Ew) as Hpos. apply find_some_in in Ew as Hin.
+    assert (Hnw : NoDup (keys (items (wt_lru s)))).
+    { apply cntl_nodup. intros x. pose proof (Hd x). lia. }
+    rewrite Ep.
+    destruct Hcase as [(_ & E1 & E2)|(_ & rest & [dk dv] & Eo & E1 & E2)]; rewrite E1, E2.
+    + split.
+      * apply truth_update; auto; [incl_tac|in_norm; auto 6|in_norm; auto|].
+        wcnt_tac Hd.
+      * rewrite find_remove_key_same by exact Hnw. cbn [find]. now rewrite Z.eqb_refl.
+    + rewrite Eo in *. split.
+      * apply truth_update; auto; [incl_tac|in_norm; auto 6|in_norm; auto|].
+        wcnt_tac Hd.
+      * cbn [find]. rewrite Z.eqb_refl.
+        assert (dk <> k).
+        { intros ->. pose proof (Hd k) as Hx. unfold scnt in Hx. rewrite ?Eo in Hx. autorewrite with cnt in Hx.
+          rewrite ?Z.eqb_refl, ?ind_eqb_refl in Hx. cbn [ind] in Hx. lia. }
+        destruct (Z.eqb_spec k dk); [congruence|].
+        now rewrite find_remove_key_same by exact Hnw.
+  - destruct (scontains (wt_slru s) k) eqn:Esc.
+    + (* key of the main cache: a put on the segmented cache *)
+      rewrite (main_hit_put s k v Ew Esc).
+      destruct (c12_slru (wt_slru s) k v Hm) as (m' & r & E & Htruth & Hpeek).
+      rewrite E. cbn [bind]. do 2 eexists. split; [reflexivity|].
+      cbn [wt_lru wt_slru wt_with]. rewrite Ew. split.
+      * unfold retained_s in Htruth. apply put_truth_frame; [|exact Htruth].
+        intros e He. split.
+        -- apply notin_keys_neq with (l := items (wt_lru s)); [now apply find_none_notin|exact He].
+        -- intros Hk. apply cnt_of_in in He. rewrite keys_app, in_app_iff in Hk.
+           pose proof (Hd (fst e)) as Hx. unfold scnt in Hx.
+           destruct Hk as [Hk|Hk]; apply cntl_in in Hk; lia.
+      * exact Hpeek.
+    + (* brand-new key *)
+      assert (Hk0 : cntl (items (wt_lru s) ++ items (prob (wt_slru s)) ++ items (prot (wt_slru s))) k = 0%nat).
+      { rewrite !cntl_app. apply scontains_false in Esc. unfold scnt in Esc.
+        rewrite (cntl_find_none _ _ Ew). lia. }
+      assert (Hkp : find k (items (prob (wt_slru s))) = None /\ find k (items (prot (wt_slru s))) = None).
+      { apply scontains_false in Esc. unfold scnt in Esc. split; apply cntl_zero_find; lia. }
+      destruct Hkp as [Hkp Hkf].
+      destruct (new_key_enters_window s k v Hinv Ew Esc) as [[Hroom E]|(Hfull & rest & ck & cv & Eo & E)].
+      * rewrite E. do 2 eexists. split; [reflexivity|]. cbn [wt_lru wt_slru wt_with items with_items find].
+        rewrite Z.eqb_refl. split; [|reflexivity].
+        apply truth_put; auto; [incl_tac|in_norm; auto|wcnt_tac Hd].
+      * rewrite E. clear E.
+        assert (Hck : find ck (items (prob (wt_slru s))) = None /\ find ck (items (prot (wt_slru s))) = None).
+        { pose proof (Hd ck) as Hx. unfold scnt in Hx. rewrite Eo in Hx. autorewrite with cnt in Hx.
+          rewrite ?Z.eqb_refl, ?ind_eqb_refl in Hx. cbn [ind] in Hx. split; apply cntl_zero_find; lia. }
+        destruct Hck as [Hck1 Hck2].
+        assert (Hpk : forall (s' : wtiny), items (wt_lru s') = (k, v) :: rest ->
+                  match find k (items (wt_lru s')) with
+                  | Some v0 => Some v0
+                  | None => match find k (items (prot (wt_slru s'))) with
+                            | Some v1 => Some v1 | None => find k (items (prob (wt_slru s'))) end
+                  end = Some v).
+        { intros s' ->. cbn [find]. now rewrite Z.eqb_refl. }
+        destruct (Nat.ltb_spec (slen (wt_slru s)) (scap (wt_slru s))) as [Hfree|Hmf].
+        -- (* free admission *)
+           rewrite (admission_free s _ ck cv Hfree).
+           destruct (new_key_enters_probationary (wt_slru s) ck cv Hm Hck1 Hck2) as (m' & r & E & Ep & _ & Hcase).
+           rewrite E. cbn [bind]. do 2 eexists. split; [reflexivity|].
+           split; [|apply Hpk; reflexivity].
+           cbn [wt_lru wt_slru wt_with items with_items]. rewrite Ep, Eo in *.
+           destruct Hcase as [(_ & -> & E1)|(_ & prest & ek & ev & Epo & -> & E1)]; rewrite E1.
+           ++ apply truth_put; auto; [incl_tac|in_norm; auto|wcnt_tac Hd].
+           ++ rewrite Epo in *.
+              apply truth_evicted; auto; [incl_tac|in_norm; auto|in_norm; auto 8|wcnt_tac Hd].
+        -- (* admission filter *)
+           destruct (admission_filter s (with_items (wt_lru s) ((k, v) :: rest)) ck cv Hinv Hmf Hck1 Hck2)
+             as (prest & vk & vv & Epo & E).
+           rewrite E. rewrite Eo, Epo in *.
+           destruct (N.ltb _ _).
+           ++ do 2 eexists. split; [reflexivity|]. split; [|apply Hpk; reflexivity].
+              cbn [wt_lru wt_slru wt_with items with_items]. rewrite Epo.
+              apply truth_evicted; auto; [incl_tac|in_norm; auto|in_norm; auto 8|wcnt_tac Hd].
+           ++ do 2 eexists. split; [reflexivity|]. split; [|apply Hpk; reflexivity].
+              cbn [wt_lru wt_slru wt_with prob prot items with_items].
+              apply truth_evicted; auto; [incl_tac|in_norm; auto|in_norm; auto 8|wcnt_tac Hd].
+Qed.
+
+(** ** PutResult values are structural *)
+Theorem put_result_eqb_structural a b : put_result_eqb a b = true <-> a = b.
+Proof.
+  destruct a, b; cbn; split; intros H; try discriminate; try reflexivity;
+    repeat match goal with
+           | H : _ && _ = true |- _ => apply andb_prop in H; destruct H
+           | H : Z.eqb _ _ = true |- _ => apply Z.eqb_eq in H
+           end; subst; try reflexivity;
+    inversion H; subst; rewrite ?Z.eqb_refl; reflexivity.
+Qed.
+
+(** ** put_protected and the *_or_put family *)
+Ltac scnt_tac Hd :=
+  let x := fresh "x" in
+  intros x; pose proof (Hd x); cbn [prob prot items with_items] in *;
+  autorewrite with cnt in *; cbn [length] in *; eqb_cases; try lia.
+
+Theorem c12_slru_put_protected s k v :
+  slru_inv s ->
+  put_truth (retained_s s) (retained_s (fst (sput_protected s k v))) k v (snd (sput_protected s k v)) /\
+  speek (fst (sput_protected s k v)) k = Some v.
+Proof.
+  intros Hinv. pose proof Hinv as (Hc1 & Hc2 & Hl1 & Hl2 & Hd).
+  assert (HndR : NoDup (keys (retained_s s))).
+  { apply cntl_nodup. intros x. unfold retained_s. rewrite cntl_app. apply Hd. }
+  unfold retained_s in *. unfold sput_protected, speek, peek.
+  destruct (remove_spec (prob s) k) as [[Hn ->]|(old & Hf & ->)].
+  - pose proof (cntl_find_none _ _ Hn) as Hz.
+    destruct (put_spec (prot s) k v Hc2 Hl2)
+      as [(o & Hf2 & ->)|[(Hf2 & Hlt & ->)|(Hf2 & Hfull & rest & ek & ev & Hit & ->)]];
+      cbn [fst snd prob prot items with_items find]; rewrite Z.eqb_refl; (split; [|reflexivity]).
+    + pose proof (cntl_find_some _ _ _ Hf2) as Hpos. apply find_some_in in Hf2 as Hin.
+      apply truth_update; auto; [incl_tac|in_norm; auto|in_norm; auto|scnt_tac Hd].
+    + pose proof (cntl_find_none _ _ Hf2) as Hz2.
+      apply truth_put; auto; [incl_tac|in_norm; auto|rewrite cntl_app; lia|scnt_tac Hd].
+    + pose proof (cntl_find_none _ _ Hf2) as Hz2. rewrite Hit in *.
+      apply truth_evicted; auto; [incl_tac|in_norm; auto|rewrite cntl_app; lia|in_norm; auto 6|scnt_tac Hd].
+  - pose proof (cntl_find_some _ _ _ Hf) as Hpos. apply find_some_in in Hf as Hin.
+    assert (Hf2 : find k (items (prot s)) = None).
+    { apply cntl_zero_find. pose proof (Hd k). lia. }
+    destruct (put_spec (prot s) k v Hc2 Hl2)
+      as [(o & Hf3 & _)|[(_ & Hlt & ->)|(_ & Hfull & rest & ek & ev & Hit & ->)]]; [congruence| |];
+      cbn [fst snd prob prot items with_items find]; rewrite Z.eqb_refl; (split; [|reflexivity]).
+    + apply truth_update; auto; [incl_tac|in_norm; auto|in_norm; auto|scnt_tac Hd].
+    + rewrite Hit in *.
+      assert (Hne : ek <> k).
+      { intros ->. pose proof (Hd k) as Hx. autorewrite with cnt in Hx. rewrite ?Z.eqb_refl, ?ind_eqb_refl in Hx.
+        cbn [ind] in Hx. lia. }
+      apply truth_evicted_update; auto; [incl_tac|in_norm; auto|in_norm; auto|in_norm; auto 6|scnt_tac Hd].
+Qed.
+
+(** peek_or_put / peek_mut_or_put / contains_or_put: no put result iff the key was resident, and
+    then nothing but the optional write happened; otherwise exactly a put *)
+Theorem c12_or_put s k v :
+  (forall x, find k (items s) = Some x -> peek_or_put s k v = (s, Some x, None, []) /\
+                                         contains_or_put s k v = (s, true, None, [])) /\
+  (find k (items s) = None ->
+   peek_or_put s k v = (let '(s', r, cb) := Lru.put s k v in (s', None, Some r, cb)) /\
+   contains_or_put s k v = (let '(s', r, cb) := Lru.put s k v in (s', false, Some r, cb))).
+Proof.
+  unfold peek_or_put, contains_or_put, mem. split.
+  - intros x ->. auto.
+  - intros ->. auto.
 Qed.
